@@ -106,6 +106,13 @@ def norm(t):
             return ('call', 'lower_chunk', (args[0], const(args[1][1] + 1)))
     if k == 'builtin' and t[1] == 'int' and len(t[2]) == 1:
         return t[2][0]
+    if k == 'op' and t[1] in ('BitAnd', 'Mod'):
+        # (a + b) & 0xFFFFFFFF and (a + b) % 2**32 are add(a, b, 32); likewise for -
+        for x, m in ((t[2], t[3]), (t[3], t[2])):
+            full = (t[1] == 'BitAnd' and m == const(0xFFFFFFFF)) or \
+                   (t[1] == 'Mod' and m in (const(1 << 32), ('op', 'Pow', const(2), const(32))) and x is t[2])
+            if full and isinstance(x, tuple) and x and x[0] == 'op' and x[1] in ('Add', 'Sub'):
+                return ('call', 'add' if x[1] == 'Add' else 'sub', (x[2], x[3], const(32)))
     return t
 
 
@@ -588,6 +595,11 @@ def check_abort_ordering(run, repo, rule):
     return n
 
 
+def _judge_mutant(run, mrepo, name, ctx):
+    ci, fams, encs = ctx['classes'][name]
+    check_class(run, mrepo, ctx['eff'], ctx['fr'], mrepo.cls(name), fams, encs)
+
+
 def main(repo_path, tier, seed, replay=None):
     run = Run('C02', tier, level='other', seed=seed)
     repo = Repo(repo_path)
@@ -616,6 +628,10 @@ def main(repo_path, tier, seed, replay=None):
         run.violation('C02-H', f.file, f.func, f.construct, f.message, f.detail)
     run.instance('C02-H', 'add / sub mod 2^32, Shift_C, sign_extend bit-exact', obligations=len(used), ok=not hb, sample={'helpers': list(used)})
     controls(run, repo_path, repo, eff, fr, classes)
+    if tier == 'thorough':
+        from ..selftest import run_selftest
+        targets = [(name, ci.module.relpath, ci.module.source, name + '.execute') for name, (ci, fams, encs) in sorted(classes.items())]
+        run_selftest(run, repo_path, 'C02', targets, _judge_mutant, {'fr': fr, 'eff': eff, 'classes': classes}, per_function=8, floor=75, seconds=12)
     run.exhaustive = True
     run.undecided = ['the bytes moved for given data, endianness and alignment (C13 accessor conformance, C17 helpers)',
                      ]
